@@ -685,6 +685,14 @@ void c13_case(Ctx& c, Rng& r) {
         oracle(buf, r.bytes(32), "other-key");
         auto k3 = key; k3.push_back(0);   // zero-extended key: same HMAC key block when short -> must still agree with the reference
         oracle(buf, k3, "key-zero-extended");
+        // strict prefixes of the signing key, tried right after traffic under the full key
+        for (std::size_t cut : {key.size() > 0 ? key.size() - 1 : 0, key.size() / 2, std::size_t{1}, std::size_t{0}}) {
+            if (cut >= key.size()) continue;
+            oracle(buf, key, "original");
+            oracle(buf, std::vector<std::uint8_t>(key.begin(), key.begin() + static_cast<std::ptrdiff_t>(cut)), "key-prefix");
+        }
+        // and keys that extend the signing key with non-zero bytes
+        { auto k4 = key; k4.push_back(0x80); oracle(buf, key, "original"); oracle(buf, k4, "key-extended"); }
     }
     // body mutated and re-signed with the reference MAC: accepted iff the body decodes
     for (int i = 0; i < 12; ++i) {
